@@ -119,6 +119,22 @@ def consTryChangeView (forkH height : Nat) (running : Bool) (tol : Int) (n me : 
     if height < forkH then tryChangeViewV0 tol n me s now else tryChangeViewV1 tol n me s now
   else some s
 
+/-- `maxViewOffset` of dpos/manager/dposmanager.go. -/
+def maxViewOffset : Nat := 100
+
+/-- `DPOSManager.OnChangeView` (the view timer): `Consensus.TryChangeView`, and — before
+    `ChangeViewV1Height` only — a `ResetView` broadcast when the offset has reached `maxViewOffset`.
+    Returns the new state and whether a `ResetView` message is broadcast. -/
+def mgrOnChangeView (forkH height : Nat) (running : Bool) (tol : Int) (n me : Nat) (s : VState) (now : Int) :
+    Option (VState × Bool) :=
+  match consTryChangeView forkH height running tol n me s now with
+  | some s' => some (s', decide (height < forkH) && decide (maxViewOffset ≤ s'.off))
+  | none => none
+
+/-- `DPOSManager.OnResponseResetViewReceived` forwards the message to the dispatcher only before
+    `ChangeViewV1Height` and only on a current arbiter (arbiters are the keys `0..n-1`). -/
+def mgrForwardsResetView (forkH height n me : Nat) : Bool := decide (height < forkH) && decide (me < n)
+
 /-- a polling schedule: evaluate at each of the given times in turn. -/
 def pollAll (step : VState → Int → Option VState) : VState → List Int → Option VState
   | s, [] => some s
